@@ -171,3 +171,5 @@ def run(ctx):
     ctx.assume("R-plumb: AppNamespace._app_id / Mailbox._app_id are the registry key "
                "of Server._apps (checked by the shared rule R-plumb and E4 registry_key)")
     ctx.note("timing and resource interference between apps is not decided")
+
+EXPLANATION += ' Batch 6: a namespace is evicted only under its own in-use verdict (R06.evict, rule U); text columns keep text.'
